@@ -88,6 +88,9 @@ impl<T, E> Observer<T, E> for ObservableFutureObserver<T, E> {
 
   fn error(mut self, err: E) {
     send_observable_value(&mut self, Err(err));
+    // the error terminates the observable: resolve the future now, exactly
+    // as a completion does.
+    self.complete();
   }
 
   fn complete(mut self) {
